@@ -40,6 +40,10 @@ register("C07", "exploration", "E1 explore", "bounded exhaustive enumeration of 
          "Every archive of the C01 planes plus all single/pair/triple append sessions over 8 member-list kinds (incl. directories, empty files, empty dirs, symlinks) is parsed by ref7z in strict mode, which enforces exactly the invariants the property names and re-derives every size and CRC by stage-wise decoding with its own codecs and 7zAES KDF.",
          "Trusts ref7z (validated on 54 third-party fixtures at setup). Does not demand minimal NUMBER encodings, a CRC on the encoded header, or terminated Brotli streams (noted in DESIGN.md).", "DESIGN.md section 5 C07")
 
+register("C04", "fault_enumeration", "E4 device", "exhaustive enumeration of damage images (every bit flip, truncation, overwrite, insertion/removal, burst, block swap) on the real reader",
+         "For each of 13 (thorough ~90) small base archives, every single-bit flip, every truncation length and the other exhaustive damage classes are opened, extracted and integrity-tested by the real code; the oracle is the pristine member map and consistency of test()/testzip() with extraction. Exhaustive per base, so no damaged position is left unexamined for these bases.",
+         "Bases are small (200-600 bytes) and offered as streams (sequential extraction path). Hangs are counted here and judged by C05.", "DESIGN.md section 5 C04")
+
 NOT_YET = {}
 
 
